@@ -11,7 +11,7 @@ import (
 type SplitTracker struct {
 	knownSplits         *ds.SortedMap[string, SourceSplitterShard]
 	assignedSplits      map[string]struct{}
-	LastAssignedSplitID string // The last split ID that was marked assigned.
+	LastAssignedSplitID string // The greatest split ID that was marked assigned.
 	mu                  sync.Mutex
 }
 
@@ -50,12 +50,12 @@ func (st *SplitTracker) TrackAssigned(shards []SourceSplitterShard) {
 	st.mu.Lock()
 	defer st.mu.Unlock()
 
+	// LastAssignedSplitID is the cursor for listing new shards. It only moves
+	// forward: children of an older parent can be assigned after newer shards
+	// and listing from their IDs would return shards that have since finished.
 	for _, shard := range shards {
 		st.assignedSplits[shard.ShardID] = struct{}{}
-	}
-
-	if len(shards) > 0 {
-		st.LastAssignedSplitID = shards[len(shards)-1].ShardID
+		st.LastAssignedSplitID = max(st.LastAssignedSplitID, shard.ShardID)
 	}
 }
 
